@@ -131,6 +131,16 @@ def history_item(rng: random.Random, sources: List[Dict[str, Any]], scratch: Pat
         if rng.random() < 0.15 and item['stl']:
             item['w'] = rng.choice([16, 32, 64])  # the stl at another width (may fail to fit - a failing history step)
         return item
+    if r < 0.43:  # failures that happen while parser/preprocessor state is "open" (inside a namespace, deep in a macro, mid-rep)
+        text = rng.choice([
+            'ns q {\n  def m {\n    ;\n  }\n  ;1 +\n}\n', 'ns a {\nns b {\n;`\n}\n}\n', 'ns outer {\n  x:\n  ;nolabel\n', 'ns z {\n ;\n',
+            'def r a {\n  rep(3, i) r2 a+i\n}\ndef r2 b {\n  ;b/0\n}\n;\nr 5\n', 'def d {\n  d\n}\n;\nd\n',
+            'ns p {\n  def f {\n    .g\n  }\n  def g {\n    ..nope\n  }\n}\n;\np.f\n', 'K = 5\nns c {\n  K = 6\n  ;K\n  ;(\n}\n'])
+        path = scratch / f'open{index}.fj'
+        path.write_text(text)
+        stl = rng.random() < 0.3
+        return {'files': [str(path)], 'w': 64 if stl else rng.choice([16, 32, 64]), 'stl': stl, 'werror': True, 'name': 'fail:open-state',
+                'max_recursion_depth': rng.choice([None, 20, 900])}
     if r < 0.6:  # failing inputs of the C14 classes
         case = rng.choice(c14.grammar_cases(rng))
         path = scratch / f'fail{index}.fj'
